@@ -152,13 +152,13 @@ def op_rt(case, pm):
         tree = ast.parse(src)
     except Exception as e:
         return {'status': 'skip', 'reason': 'unparseable'}
-    if sys.version_info < (3, 8):
-        # the pre-PEG parsers accept a parenthesised bare starred expression `(*a)` that the compiler then rejects
+    if True:
+        # several parsers (pre-PEG and 3.9 / 3.10) accept a parenthesised bare starred expression `(*a)` that the compiler then rejects
         try:
             compile(src, 'vf_case.py', 'exec', dont_inherit=True)
         except SyntaxError as e:
             if 'starred' in str(e):
-                return {'status': 'skip', 'reason': 'old parser accepts (*a), compiler rejects it'}
+                return {'status': 'skip', 'reason': 'parser accepts a bare (*a), compiler rejects it'}
         except Exception:
             pass
     want = sdump(tree)
